@@ -15,6 +15,7 @@ pub mod c07;
 pub mod c09;
 pub mod c12;
 pub mod c15;
+pub mod c19;
 pub mod c03;
 pub mod c04;
 
@@ -64,6 +65,7 @@ pub fn run(a: &Args) -> i32 {
         "c16" => c15::run_c16(&env),
         "c17" => c15::run_c17(&env),
         "c18" => c15::run_c18(&env),
+        "c19" => c19::run(&env),
         "c04" => c04::run(&env),
         x => { eprintln!("unknown stream {}", x); return 2; }
     };
